@@ -15,6 +15,34 @@ Ltac evk := cbn [prog_env eval_args callee_init finish_call copy_in copy_out try
                  prog_sbdf_cs_destroy prog_sbdf_cs_destroy_all prog_sbdf_cs_read];
   change (0 =? 0) with true; change (1 =? 0) with false; cbn [negb b2z].
 
+(* ================================================================== releasing a value array with more blocks behind it *)
+Lemma destroys_length m h ob h' : destroys m h ob h' -> List.length h' = List.length h.
+Proof. intros [(db & ty & cells & data & _ & _ & _ & _ & _ & _ & _ & ->)|(ty & cnt & dp & _ & _ & _ & ->)]; rewrite ?kill_length; reflexivity. Qed.
+
+Lemma destroys_opt_length m h ov h' : destroys_opt m h ov h' -> List.length h' = List.length h.
+Proof. intros [(_ & ->)|(ob & _ & D)]; [reflexivity|eapply destroys_length; exact D]. Qed.
+
+Lemma destroys_opt_grow m m2 h ov hk x : destroys_opt m h ov hk -> zlen m <= zlen m2 -> destroys_opt m2 (h ++ x) ov (hk ++ x).
+Proof. intros [(N & ->)|(ob & P & D)] Hm; [left; split; [exact N|reflexivity]|right; exists ob; split; [exact P|apply (destroys_grow m m2 h ob hk x D Hm)]]. Qed.
+
+Lemma va_rel_grow m m2 h vb hf x : va_rel m h vb hf -> zlen m <= zlen m2 -> va_rel m2 (h ++ x) vb (hf ++ x).
+Proof.
+  intros (ty & enc & v1 & o1 & o2 & h1 & h2 & Hv & D1 & D2 & K1 & K2 & ->) Hm.
+  assert (Lv : (vb < List.length h)%nat) by (apply nth_error_Some; unfold va_block in Hv; rewrite Hv; discriminate).
+  pose proof (destroys_opt_length _ _ _ _ D1) as L1. pose proof (destroys_opt_length _ _ _ _ D2) as L2.
+  exists ty, enc, v1, o1, o2, (h1 ++ x), (h2 ++ x).
+  split; [unfold va_block in *; rewrite nth_error_app1 by lia; exact Hv|].
+  split; [apply (destroys_opt_grow m m2 _ _ _ x D1 Hm)|]. split; [apply (destroys_opt_grow m m2 _ _ _ x D2 Hm)|].
+  split; [rewrite !nth_error_app1 by lia; exact K1|]. split; [rewrite !nth_error_app1 by lia; exact K2|].
+  rewrite kill_app by lia. reflexivity.
+Qed.
+
+Lemma va_rel_length m h vb hf : va_rel m h vb hf -> List.length hf = List.length h.
+Proof.
+  intros (ty & enc & v1 & o1 & o2 & h1 & h2 & _ & D1 & D2 & _ & _ & ->).
+  rewrite kill_length, (destroys_opt_length _ _ _ _ D2), (destroys_opt_length _ _ _ _ D1). reflexivity.
+Qed.
+
 Section CsRead.
 Variables (bv : val) (o : list Z).
 
@@ -164,6 +192,36 @@ Proof.
   eapply bsE_seq_ret. eapply bsE_if; [eva; chk7; eva; cellrw Hc; eva; reflexivity|reflexivity|].
   eapply bsE_seq; [eapply bsE_call_void; [reflexivity|eva; reflexivity|reflexivity|eva; exact ALL|eva; reflexivity]|].
   eapply bsE_return. eva. chk7. reflexivity.
+Qed.
+
+(* a slice that sbdf_cs_destroy releases completely - wherever it stands in the heap (any blocks of the same number in front, any
+   blocks behind) and however the memory has grown since: hnew are the slice's blocks, the struct first *)
+Definition cs_sem (m : list Z) (L : nat) (hnew : heap) : Prop :=
+  forall (pre x : heap) m3 kk sxx, List.length pre = L -> zlen m <= zlen m3 ->
+    bsE prog_env (fbody prog_sbdf_cs_destroy) (fr [("cs"%string, VCell L 0); ("i"%string, VUndef)] bv kk sxx (pre ++ hnew ++ x) m3 o)
+      (OReturn (VInt 0) (fr [("cs"%string, VCell L 0); ("i"%string, VUndef)] bv kk sxx (pre ++ nones (List.length hnew) ++ x) m3 o)).
+
+Lemma cs_sem_fresh m2 L blk newb :
+  (forall hp : heap, List.length hp = S L -> va_rel m2 (hp ++ Some blk :: newb) (S L) (hp ++ None :: nones (List.length newb))) ->
+  cs_sem m2 L (Some [VCell (S L) 0; VInt 0; VInt 0; VInt 0; VInt 1] :: Some blk :: newb).
+Proof.
+  intros VR pre x m3 kk sxx Hpre Hm. subst L.
+  assert (NTH : forall (b : list val) (rest : heap), nth_error (pre ++ Some b :: rest) (List.length pre) = Some (Some b)) by (intros; rewrite nth_error_app2 by lia; rewrite Nat.sub_diag; reflexivity).
+  assert (KL : forall (b : list val) (rest : heap), kill (List.length pre) (pre ++ Some b :: rest) = pre ++ None :: rest) by (intros; unfold kill; rewrite set_nth_v_app; reflexivity).
+  set (L := List.length pre) in *.
+  set (slice := [VCell (S L) 0; VInt 0; VInt 0; VInt 0; VInt 1]).
+  set (hpY := pre ++ [Some slice]).
+  assert (HpY : List.length hpY = S L) by (unfold hpY; rewrite app_length; cbn; lia).
+  set (h1 := pre ++ Some slice :: None :: nones (List.length newb) ++ x).
+  set (h3 := pre ++ Some [VCell (S L) 0; VInt 0; VInt 0; VInt 0; VInt 0] :: None :: nones (List.length newb) ++ x).
+  pose proof (cs_destroy_fresh_bs kk sxx m3 (pre ++ Some slice :: Some blk :: newb ++ x) L (VCell (S L) 0) h1 h3 VUndef (NTH _ _)
+                ltac:(right; exists (S L); split; [reflexivity|];
+                      pose proof (va_rel_grow m2 m3 _ _ _ x (VR hpY HpY) Hm) as G; unfold hpY in G; rewrite <- !app_assoc in G; cbn [app] in G; unfold h1; exact G)
+                ltac:(unfold h1; rewrite !NTH; reflexivity)
+                ltac:(unfold h1, h3, L, slice; erewrite cell_set_mid; [reflexivity|lia|reflexivity]) (NTH _ _)) as D.
+  unfold h3 in D. rewrite KL in D. cbn [app List.length]. 
+  replace (pre ++ nones (S (S (List.length newb))) ++ x) with (pre ++ None :: None :: nones (List.length newb) ++ x) by reflexivity.
+  exact D.
 Qed.
 
 (* ================================================================== sbdf_cs_read *)
@@ -381,9 +439,7 @@ Fixpoint props_end (n : nat) (s : list Z) : option (list Z) :=
   end.
 (* everything behind the caller's heap is released by one sbdf_cs_destroy on the slice (which is the first new block) *)
 Definition releasable (h h' : heap) (m' : list Z) : Prop :=
-  exists hnew, h' = h ++ hnew /\ (1 <= List.length hnew)%nat /\
-    forall kk sxx, bsE prog_env (fbody prog_sbdf_cs_destroy) (fr [("cs"%string, VCell (List.length h) 0); ("i"%string, VUndef)] bv kk sxx h' m' o)
-                     (OReturn (VInt 0) (fr [("cs"%string, VCell (List.length h) 0); ("i"%string, VUndef)] bv kk sxx (h ++ nones (List.length hnew)) m' o)).
+  exists hnew, h' = h ++ hnew /\ (1 <= List.length hnew)%nat /\ cs_sem m' (List.length h) hnew.
 Definition cs_props_seq : stmt :=
   match cs_body with SSeq _ (SSeq _ (SSeq _ (SSeq _ (SSeq _ (SSeq _ (SSeq _ (SSeq _ (SSeq _ (SSeq _ x))))))))) => x | _ => SSkip end.
 Definition s6 (so : val) (h : heap) (v k2 : Z) (s3 : list Z) (blk : list val) (newb : heap) (m2 : list Z) : state :=
@@ -541,7 +597,7 @@ Proof.
   assert (v = 0) by lia. subst v.
   exists SBDF_OK. eexists (Build_crl _ _ _ _ _ _ _ _ _ _). do 4 eexists. split; [|split; [exact Pf1|left; split; [reflexivity|split; [reflexivity|]]]].
   2: { split.
-       - exists (Some slice :: Some blk :: newb). split; [reflexivity|]. split; [cbn [List.length]; lia|]. intros kk sxx. apply DY.
+       - exists (Some slice :: Some blk :: newb). split; [reflexivity|]. split; [cbn [List.length]; lia|]. apply cs_sem_fresh. exact VR.
        - exists s1, va, s2, 0, s3. split; [reflexivity|]. split; [exact MV|]. split; [exact ER|]. split; [lia|reflexivity]. }
   eapply cs_read_brk.
   - unfold cs_body. cbn [fbody prog_sbdf_cs_read]. apply HEAD. apply PRE.
@@ -619,32 +675,4 @@ Proof.
     intros k2 s2'. destruct (bsE_sound _ _ _ _ (cs_destroy_read_bs (VInt 0) [] h blk newb m' k2 s2' VR)) as (f1 & F1). exists f1. intros g Hg.
     eexists. split; [apply F1; exact Hg|]. split; reflexivity.
   - right. split; [exact Hn|]. split; [reflexivity|]. exists j. reflexivity.
-Qed.
-
-(* ================================================================== releasing a value array with more blocks behind it *)
-Lemma destroys_length m h ob h' : destroys m h ob h' -> List.length h' = List.length h.
-Proof. intros [(db & ty & cells & data & _ & _ & _ & _ & _ & _ & _ & ->)|(ty & cnt & dp & _ & _ & _ & ->)]; rewrite ?kill_length; reflexivity. Qed.
-
-Lemma destroys_opt_length m h ov h' : destroys_opt m h ov h' -> List.length h' = List.length h.
-Proof. intros [(_ & ->)|(ob & _ & D)]; [reflexivity|eapply destroys_length; exact D]. Qed.
-
-Lemma destroys_opt_grow m m2 h ov hk x : destroys_opt m h ov hk -> zlen m <= zlen m2 -> destroys_opt m2 (h ++ x) ov (hk ++ x).
-Proof. intros [(N & ->)|(ob & P & D)] Hm; [left; split; [exact N|reflexivity]|right; exists ob; split; [exact P|apply (destroys_grow m m2 h ob hk x D Hm)]]. Qed.
-
-Lemma va_rel_grow m m2 h vb hf x : va_rel m h vb hf -> zlen m <= zlen m2 -> va_rel m2 (h ++ x) vb (hf ++ x).
-Proof.
-  intros (ty & enc & v1 & o1 & o2 & h1 & h2 & Hv & D1 & D2 & K1 & K2 & ->) Hm.
-  assert (Lv : (vb < List.length h)%nat) by (apply nth_error_Some; unfold va_block in Hv; rewrite Hv; discriminate).
-  pose proof (destroys_opt_length _ _ _ _ D1) as L1. pose proof (destroys_opt_length _ _ _ _ D2) as L2.
-  exists ty, enc, v1, o1, o2, (h1 ++ x), (h2 ++ x).
-  split; [unfold va_block in *; rewrite nth_error_app1 by lia; exact Hv|].
-  split; [apply (destroys_opt_grow m m2 _ _ _ x D1 Hm)|]. split; [apply (destroys_opt_grow m m2 _ _ _ x D2 Hm)|].
-  split; [rewrite !nth_error_app1 by lia; exact K1|]. split; [rewrite !nth_error_app1 by lia; exact K2|].
-  rewrite kill_app by lia. reflexivity.
-Qed.
-
-Lemma va_rel_length m h vb hf : va_rel m h vb hf -> List.length hf = List.length h.
-Proof.
-  intros (ty & enc & v1 & o1 & o2 & h1 & h2 & _ & D1 & D2 & _ & _ & ->).
-  rewrite kill_length, (destroys_opt_length _ _ _ _ D2), (destroys_opt_length _ _ _ _ D1). reflexivity.
 Qed.
